@@ -52,13 +52,14 @@ const (
 )
 
 const (
-	netClass   = uint32(2) // evm
-	netChain   = uint32(123)
-	netAddr    = "0x323b5d4c32345ced77393b3530b1eed0f346429d"
-	tokAddrZnn = "0x5fbdb2315678afecb367f032d93f642f64180aa3"
-	tokAddrOwn = "0x5aaaa2315678afecb367f032d93f642f64180aa3"
-	tokAddrBad = "0x5bbbb2315678afecb367f032d93f642f64180aa3"
-	evmDest    = "0xb794f5ea0ba39494ce839613fffba74279579268"
+	netClass    = uint32(2) // evm
+	netChain    = uint32(123)
+	netAddr     = "0x323b5d4c32345ced77393b3530b1eed0f346429d"
+	tokAddrZnn  = "0x5fbdb2315678afecb367f032d93f642f64180aa3"
+	tokAddrOwn  = "0x5aaaa2315678afecb367f032d93f642f64180aa3"
+	tokAddrBad  = "0x5bbbb2315678afecb367f032d93f642f64180aa3"
+	tokAddrFull = "0x5cccc2315678afecb367f032d93f642f64180aa3"
+	evmDest     = "0xb794f5ea0ba39494ce839613fffba74279579268"
 )
 
 var htlcPreimage = []byte("c09-preimage")
@@ -70,6 +71,7 @@ type stateEnv struct {
 	Custom     types.ZenonTokenStandard // issued by owner: mintable, burnable
 	Locked     types.ZenonTokenStandard // issued by stranger: not mintable, not burnable; owner holds some
 	BridgeTok  types.ZenonTokenStandard // owned by the bridge contract, token pair with Owned=true
+	BridgeFull types.ZenonTokenStandard // the same kind of token and pair, with the maximum fee (100 %): the wrapped amount is zero
 	IDs        map[string][]types.Hash  // contract name -> ids of existing entries (first = owner's main entry)
 	UnwrapTx   types.Hash
 	UnwrapLog  uint32
@@ -362,6 +364,18 @@ func buildEntries(p *pair, env0 *stateEnv) (*stateEnv, string) {
 		b.step()
 		b.receiveAll(owner)
 		twice(types.BridgeContract, definition.ABIBridge.PackMethodPanic(definition.SetTokenPairMethod, netClass, netChain, env.BridgeTok, tokAddrOwn, true, true, true, big.NewInt(10), uint32(100), uint32(2), "{}"), softDelay)
+		// a second bridge-owned token whose pair carries the maximum fee the contract accepts (100 %)
+		bf := b.send(admin, types.TokenContract, znn, new(big.Int).Set(constants.TokenIssueAmount),
+			definition.ABIToken.PackMethodPanic(definition.IssueMethodName, "c09-bridged-full-fee", "BRF", "", big.NewInt(100000), big.NewInt(100000000), uint8(0), true, true, false))
+		env.BridgeFull = types.NewZenonTokenStandard(bf.Hash.Bytes())
+		b.step()
+		b.step()
+		b.receiveAll(admin)
+		b.send(admin, types.TokenContract, znn, big.NewInt(0), definition.ABIToken.PackMethodPanic(definition.UpdateTokenMethodName, env.BridgeFull, types.BridgeContract, true, true))
+		b.send(admin, owner.Address, env.BridgeFull, big.NewInt(10000), nil)
+		b.step()
+		b.receiveAll(owner)
+		twice(types.BridgeContract, definition.ABIBridge.PackMethodPanic(definition.SetTokenPairMethod, netClass, netChain, env.BridgeFull, tokAddrFull, true, true, true, big.NewInt(10), constants.MaximumFee, uint32(2), "{}"), softDelay)
 		// administrator mistake the contract does not prevent: a pair flagged Owned for a token the bridge neither owns nor
 		// may burn (stranger's non-burnable token; owner holds 1000 of it)
 		twice(types.BridgeContract, definition.ABIBridge.PackMethodPanic(definition.SetTokenPairMethod, netClass, netChain, env.Locked, tokAddrBad, true, true, true, big.NewInt(10), uint32(100), uint32(2), "{}"), softDelay)
